@@ -183,9 +183,16 @@ func RunRepl(prompt string, opts ...Option) {
 		rootDir = wd
 	}
 
+	root, err := os.OpenRoot(rootDir)
+	if err != nil {
+		errlnf("Cannot open root directory: %v", err)
+		os.Exit(1)
+	}
+	defer root.Close() //nolint:errcheck // read-only handle
+
 	envOpts := []lisp.Config{
 		lisp.WithReader(parser.NewReader()),
-		lisp.WithLibrary(&lisp.FSLibrary{FS: os.DirFS(rootDir)}),
+		lisp.WithLibrary(&lisp.FSLibrary{FS: root.FS()}),
 	}
 
 	if cfg.stderr != nil {
